@@ -1,0 +1,23 @@
+//go:build verif
+
+package diode
+
+// Contracts for the verifier in /verif (govc). Comment-only file.
+
+//@ spec emptybytes(b bytes) bool = len(b) == 0
+//@ pool bufPool []byte emptybytes
+
+//@ track diodeFetcher.Set, diodeFetcher.Next, io.Writer.Write
+
+// Write stores a private copy of p (pooled or freshly grown storage, never the
+// caller's) and returns without calling anything that can wait for the wrapped
+// writer (see the nonblocking sweep).
+//@ func (Writer).Write(dw, p) n, err
+//@   props C10 C06
+//@   arith int
+//@   flag replay diode_copy
+//@   requires dw.d != nil && !poolowned(p)
+//@   ensures n == len(p) && err == nil
+//@   ensures ncalls(diodeFetcher.Set) == old(ncalls(diodeFetcher.Set)) + 1
+//@   ensures eqbytes(deref(cast(callarg(diodeFetcher.Set, old(ncalls(diodeFetcher.Set)), 1), "*[]byte")), p)
+//@   ensures len(p) > 0 ==> base(deref(cast(callarg(diodeFetcher.Set, old(ncalls(diodeFetcher.Set)), 1), "*[]byte"))) != base(p)
